@@ -144,7 +144,7 @@ def conc_inputs(prog, vals):
     if "<state>y" in roles:
         import numpy as np
         ctx["y"] = np.array(vals["y"], dtype=float)
-    pvals = {n: float(vals[n]) for n in roles if n.startswith("<p>")}
+    pvals = {n: float(vals.get(n, 1.25)) for n in roles if n.startswith("<p>")}
     return float(vals["t"]), float(vals["dt"]), ctx, pvals
 
 
@@ -225,3 +225,110 @@ def sym_array(n):
     # contents of a fresh array are undefined: named placeholders (reading one
     # before writing it is outside the claim on both sides)
     return SymArr([SymNum(z3.Real("uninit_%d" % k)) for k in range(n)])
+
+
+# ---------------------------------------------------------------------------
+# random programs of the Fortran-supported subset (typed by construction)
+
+R = V("<p>r")
+
+
+class FGen:
+    def __init__(self, rng):
+        self.rng = rng
+
+    def scalar(self, sc, depth):
+        rng = self.rng
+        if depth <= 0 or rng.random() < 0.3:
+            r = rng.random()
+            if r < 0.6:
+                return V(rng.choice(sc))
+            return C(rng.choice([0, 1, 2, -1, 3, 0.5, 2.5]))
+        op = rng.choice(["+", "+", "*", "*", "/", "pow", "if", "min", "max"])
+        a, b = self.scalar(sc, depth - 1), self.scalar(sc, depth - 1)
+        if op == "pow":
+            return ["**", a, C(2)]
+        if op == "if":
+            return ["if", self.cond(sc, 0), a, b]
+        if op in ("min", "max"):
+            return [op, a, b]
+        return [op, a, b]
+
+    def cond(self, sc, depth):
+        rng = self.rng
+        if depth > 0 and rng.random() < 0.3:
+            k = rng.choice(["and", "or", "not"])
+            if k == "not":
+                return ["not", self.cond(sc, depth - 1)]
+            return [k, self.cond(sc, depth - 1), self.cond(sc, depth - 1)]
+        return ["cmp", rng.choice(["<", "<=", ">", ">=", "==", "!="]), self.scalar(sc, 1), self.scalar(sc, 0)]
+
+    def utype(self, sc, ut, depth):
+        rng = self.rng
+        if depth <= 0 or rng.random() < 0.3:
+            return V(rng.choice(ut))
+        op = rng.choice(["+", "scale", "f", "+"])
+        if op == "+":
+            return ADD(self.utype(sc, ut, depth - 1), self.utype(sc, ut, depth - 1))
+        if op == "scale":
+            return MUL(self.scalar(sc, 1), self.utype(sc, ut, depth - 1))
+        return F(rng.choice([T, ADD(T, DT)]), self.utype(sc, ut, depth - 1))
+
+    def ops(self, sc, ut, budget, depth, phases):
+        rng = self.rng
+        out = []
+        sc, ut = list(sc), list(ut)
+        while budget[0] > 0:
+            budget[0] -= 1
+            r = rng.random()
+            if r < 0.3:
+                tgt = rng.choice(["<p>s", "<p>r", "a", "b"])
+                out.append(["assign", tgt, self.scalar(sc, rng.choice([1, 2])), []])
+                if tgt not in sc:
+                    sc.append(tgt)
+            elif r < 0.6:
+                tgt = rng.choice(["<state>y", "u", "v", "w"])
+                out.append(["assign", tgt, self.utype(sc, ut, rng.choice([1, 2])), []])
+                if tgt not in ut:
+                    ut.append(tgt)
+            elif r < 0.68:
+                tgt = rng.choice(["a", "<p>r"])
+                out.append(["assign", tgt, ["call", "<builtin>norm_2", [V(rng.choice(ut))], {}], []])
+                if tgt not in sc:
+                    sc.append(tgt)
+            elif r < 0.83 and depth < 2 and budget[0] > 0:
+                b1 = [rng.randint(1, max(1, budget[0]))]
+                budget[0] -= min(b1[0], budget[0])
+                body = self.ops(sc, ut, b1, depth + 1, phases)
+                els = None
+                if rng.random() < 0.5 and budget[0] > 0:
+                    b2 = [rng.randint(1, max(1, budget[0]))]
+                    budget[0] -= min(b2[0], budget[0])
+                    els = self.ops(sc, ut, b2, depth + 1, phases)
+                out.append(["if", ["expr", self.cond(sc, 1)], body, els])
+            elif r < 0.9:
+                out.append(["yield", V(rng.choice(ut)), "y", rng.choice([T, ADD(T, DT)]), rng.choice(["final", "mid"])])
+            elif r < 0.95 and depth > 0:
+                out.append(["fail"])
+                break
+            elif depth > 0 and len(phases) > 1:
+                out.append(["switch", rng.choice(phases)])
+                break
+            else:
+                out.append(pg.STEP)
+        return out
+
+
+def random_prog(rng, idx):
+    g = FGen(rng)
+    names = ["p0", "p1"] if rng.random() < 0.4 else ["p0"]
+    phases = []
+    for n in names:
+        budget = [rng.randint(2, 7)]
+        ops = g.ops(["<p>s", "<p>r", "<t>", "<dt>"], ["<state>y"], budget, 0, names)
+        phases.append({"name": n, "next": rng.choice(names), "ops": ops})
+    # unreachable phase: gives <state>y its kind and makes <p>s / <p>r variables the method assigns (a persistent
+    # variable that is only ever read is not declared by the generator: such a method is outside the family)
+    phases.append({"name": "zz_kindseed", "next": "zz_kindseed", "ops": [
+        ["assign_call", ["<state>y"], "<func>f", [T, Y], {}], ["assign", "<p>s", DT, []], ["assign", "<p>r", DT, []]]})
+    return {"name": "frand%d" % idx, "phases": phases, "initial": names[0]}
